@@ -67,6 +67,9 @@ MUTANTS = [
     ("triangle_address_formula", "bempp_cl/api/integration/triangle_gauss.py", "address = points_address[npoints - 1]", "address = points_address[npoints]", 0, ["C12"]),
     ("triangle_weight_scale", "bempp_cl/api/integration/triangle_gauss.py", "return (points, 0.5 * weights[address : address + npoints])", "return (points, weights[address : address + npoints])", 0, ["C12"]),
     ("rwg_bary_coeff", "bempp_cl/api/space/maxwell_spaces.py", "                [0, 1.0 / 3, -1.0 / 6],\n                [0, 0, 1.0 / 6],\n                [0, 0, 1.0 / 6],\n                [1.0 / 3, 0, -1.0 / 6],\n            ]\n        ),\n        _np.array(\n            [\n                [0, 1.0 / 3, -1.0 / 6],", "                [0, 1.0 / 3, -1.0 / 6],\n                [0, 0, 1.0 / 6],\n                [0, 0, -1.0 / 6],\n                [1.0 / 3, 0, -1.0 / 6],\n            ]\n        ),\n        _np.array(\n            [\n                [0, 1.0 / 3, -1.0 / 6],", 0, ["C10"]),
+    ("p1_place_by_element_number", "bempp_cl/api/space/scalar_spaces.py", "bary_elements = _np.arange(6) + 6 * index", "bary_elements = _np.arange(6) + 6 * elem_index", 0, ["C10"]),
+    ("rwg_place_unscaled", "bempp_cl/api/space/maxwell_spaces.py", "dof_coeffs = bary_coeffs * outer_edges[local_dof] / dof_mult", "dof_coeffs = bary_coeffs / dof_mult", 0, ["C10"]),
+    ("compat_partial_conversion", "bempp_cl/api/space/space.py", "converted = [space.barycentric_representation() for space in args]", "converted = [space.barycentric_representation() if space.is_barycentric else space for space in args]", 0, ["C10"]),
     ("dual0_pairing", "bempp_cl/api/space/scalar_dual_spaces.py", "_bary_dofs.append(6 * face_n + (2 * vertex - 1) % 6)", "_bary_dofs.append(6 * face_n + (2 * vertex + 1) % 6)", 0, ["C10"]),
     ("dual1_edge_list", "bempp_cl/api/space/scalar_dual_spaces.py", "enumerate([[1, 5], [13, 17], [7, 11]])", "enumerate([[1, 5], [7, 11], [13, 17]])", 0, ["C10"]),
     ("bary_connectivity", "bempp_cl/api/grid/grid.py", "        new_elements[1, 6 * index + 2] = local_vertex_ids[2]", "        new_elements[1, 6 * index + 2] = local_vertex_ids[1]", 0, ["C10", "C11"]),
@@ -153,6 +156,9 @@ EQUIVALENTS = [
      "            area = grid.volumes[element_index]\n            for k in range(3):\n                v = grid.elements[k, element_index]\n                values[:, v] += area * local_values[:, k]\n                vertex_areas[v] += area\n                vertex_used[v] = True\n", 0, ["C13", "C19"]),
     ("eq_scalar_projection_rename", "bempp_cl/api/assembly/grid_function.py", "        for j in range(npoints):\n            point = global_points[:, j]\n\n            fun(\n                point,\n                grid_data.normals[index] * normal_multipliers[index],\n                grid_data.domain_indices[index],\n                fun_result,\n                function_parameters,\n            )\n            fvalues[:, j] = fun_result\n",
      "        normal = normal_multipliers[index] * grid_data.normals[index]\n        for q in range(points.shape[1]):\n            fun(global_points[:, q], normal, grid_data.domain_indices[index], fun_result, function_parameters)\n            fvalues[:, q] = fun_result\n", 0, ["C13"]),
+    ("eq_p1_place_arithmetic", "bempp_cl/api/space/scalar_spaces.py", "bary_dofs[count : count + 18] = _np.arange(3 * bary_elements[0], 3 * bary_elements[0] + 18)", "bary_dofs[count : count + 18] = _np.arange(18 * index, 18 * (index + 1))", 0, ["C10"]),
+    ("eq_compat_spelling", "bempp_cl/api/space/space.py", "    is_barycentric = any([space.is_barycentric for space in args])\n\n    if not is_barycentric:\n        return args\n    else:\n        # Convert spaces\n        converted = [space.barycentric_representation() for space in args]\n",
+     "    if not any(sp.is_barycentric for sp in args):\n        return args\n    else:\n        converted = [sp.barycentric_representation() for sp in args]\n", 0, ["C10"]),
     ("eq_refine_rename", "bempp_cl/api/grid/grid.py", "            vertex01 = self.element_edges[0, index] + self.number_of_vertices\n            vertex20 = self.element_edges[1, index] + self.number_of_vertices\n            vertex12 = self.element_edges[2, index] + self.number_of_vertices\n\n            new_elements[:, 4 * index] = [vertex0, vertex01, vertex20]\n\n            new_elements[:, 4 * index + 1] = [vertex01, vertex1, vertex12]\n\n            new_elements[:, 4 * index + 2] = [vertex12, vertex2, vertex20]\n\n            new_elements[:, 4 * index + 3] = [vertex01, vertex12, vertex20]\n",
      "            nv = self.number_of_vertices\n            m_a = nv + self.element_edges[0, index]\n            m_b = nv + self.element_edges[1, index]\n            m_c = nv + self.element_edges[2, index]\n            new_elements[:, 3 + 4 * index] = [m_a, m_c, m_b]\n            new_elements[:, 4 * index + 2] = [m_c, vertex2, m_b]\n            new_elements[:, 1 + index * 4] = [m_a, vertex1, m_c]\n            new_elements[:, index * 4] = [vertex0, m_a, m_b]\n", 0, ["C11", "C04"]),
     ("eq_union_rename", "bempp_cl/api/grid/grid.py", "        vertices[:, vertex_offset : vertex_offset + nvertices] = grid.vertices\n        if swapped_normals[index]:\n            current_elements = grid.elements[[0, 2, 1], :]\n        else:\n            current_elements = grid.elements\n        elements[:, element_offset : element_offset + nelements] = current_elements + vertex_offset\n        all_domain_indices[element_offset : element_offset + nelements] = domain_indices[index]\n        vertex_offset += nvertices\n        element_offset += nelements\n",
